@@ -69,7 +69,8 @@ def bystanders(rng, pid0, max_per=3, cleanup=False):
 def loop_killer(p):
     """SystemExit / KeyboardInterrupt raised by an asyncio or thread payload stop the event loop at once"""
     o = p.get("out") or {}
-    return p.get("fl") != "trio" and (o.get("kind") == "kbd" or o.get("cls") == "SystemExit")
+    # (from a trio payload they arrive wrapped in an exception group, most of the time: treated alike)
+    return o.get("kind") == "kbd" or o.get("cls") == "SystemExit"
 
 
 def no_swallow_with_loop_killers(payloads):
